@@ -53,12 +53,25 @@ func GenGraph(t *rapid.T, o GraphOpts, label string) *GraphCase {
 	for i := 0; i < n; i++ {
 		name := fmt.Sprintf("@t%d", i)
 		var node *ref.SNode
-		switch k := rapid.IntRange(0, 9).Draw(t, label+"TypeKind"); {
+		switch k := rapid.IntRange(0, 11).Draw(t, label+"TypeKind"); {
 		case c.arrayHeavy && i < 2:
 			node = c.scalarType(label + "S")
 		case c.arrayHeavy:
 			node = c.arrayNode(i, name, 1, label+"A")
-		case k <= 2:
+		case k == 10 && i >= 1:
+			// a type that is nothing but a reference or a list of alternatives, possibly nullable
+			// (positions naming it must accept what it accepts, null included)
+			all := c.earlier(i, nil)
+			perm := rapid.Permutation(all).Draw(t, label+"UnionPerm")
+			node = &ref.SNode{Kind: ref.SRef, Names: perm[:rapid.IntRange(1, min(3, len(perm))).Draw(t, label+"UnionN")]}
+			if rapid.Bool().Draw(t, label+"UnionNullable") {
+				node.Rules = append(node.Rules, BoolRule("nullable", true))
+			}
+		case k == 11 && i >= 1:
+			// a type whose root is a literal with an `or` rule (its alternatives become anonymous
+			// types of the type's own schema object)
+			node = c.orNode(i, label+"OrType")
+		case k <= 2 || k >= 10:
 			node = c.scalarType(label + "S")
 		case k <= 7:
 			node = c.objectNode(i, name, 2, true, label+"O")
@@ -169,6 +182,18 @@ func (c *gctx) keyTypeNode(label string, kind int) string {
 	}
 	c.g.Types[name] = n
 	c.order = append(c.order, name)
+	if c.draw(0, 3, label+"Alias") == 0 {
+		// the shortcut names a reference to the string type (or a list that also names itself)
+		alias := fmt.Sprintf("@ka%d", c.keyType)
+		a := &ref.SNode{Kind: ref.SRef, Names: []string{name}}
+		if c.draw(0, 1, label+"AliasSelf") == 0 {
+			a.Names = append(a.Names, alias)
+		}
+		c.g.Types[alias] = a
+		c.order = append(c.order, alias)
+		c.hints[a] = c.hints[n]
+		return alias
+	}
 	return name
 }
 
